@@ -8,6 +8,7 @@
 
 namespace photospline{
 	
+int readNumericKey(fitsfile* fits, int datatype, const char* name, void* value);
 std::vector<uint32_t> readOrder(fitsfile* fits, uint32_t ndim);
 bool reservedFitsKeyword(const char* key);
 uint32_t countAuxKeywords(fitsfile* fits);
@@ -288,7 +289,7 @@ bool splinetable<Alloc>::read_fits_core_impl(fitsfile* fits, const std::string& 
 	//Read the spline orders
 	order = allocate<uint32_t>(ndim);
 	//See if there is a single order value
-	fits_read_key(fits, TINT, "ORDER", &order[0], NULL, &error);
+	error = readNumericKey(fits, TINT, "ORDER", &order[0]);
 	if (error != 0) {
 		error = 0;
 		
@@ -296,7 +297,7 @@ bool splinetable<Alloc>::read_fits_core_impl(fitsfile* fits, const std::string& 
 		for (unsigned i = 0; i < ndim; i++) {
 			std::ostringstream ss;
 			ss << "ORDER" << i;
-			fits_read_key(fits, TUINT, ss.str().c_str(), &order[i], NULL, &error);
+			error = readNumericKey(fits, TUINT, ss.str().c_str(), &order[i]);
 			if (error != 0)
 				throw std::runtime_error("Unable to read order for dimension "+std::to_string(i));
 		}
@@ -313,7 +314,7 @@ bool splinetable<Alloc>::read_fits_core_impl(fitsfile* fits, const std::string& 
 	for (unsigned i = 0; i < ndim; i++) {
 		std::ostringstream ss;
 		ss << "PERIOD" << i;
-		fits_read_key(fits, TDOUBLE, ss.str().c_str(), &periods[i], NULL, &error);
+		error = readNumericKey(fits, TDOUBLE, ss.str().c_str(), &periods[i]);
 		//If the PERIOD keys cannot be read, just interpret this as
 		//a non-periodic table.
 		if (error != 0) {
